@@ -147,6 +147,9 @@ def run(A, R: Report, thorough: bool):
         for n in cfg.nodes.values():
             if n.kind == 'test' and n.owner is fdata.node and memo_expr(n.ast):
                 memo_tests.append(n)
+                # "is there a data object" asked by truthiness: a data object may be a container (user data classes with __len__, a falsy value object)
+                R.violation('R04.3', 'Task.data: memo test', key_of('memo-truthiness', src(n.ast)), f'`{src(n.ast)}` tests the stored data object for truth, not for `is not None`: a data object that is an (empty) container '
+                            'counts as "nothing computed yet", so every further request of the value - by this task\'s dependants in the same chain - runs the task again', where=where(fdata, n.ast))
                 break
     memo_tests.sort(key=lambda n: n.id)
     if not memo_tests:
@@ -321,7 +324,7 @@ def check_registry_reuse(A, R: Report, rid: str):
 
         def dec(hit, present=True, km=km):
             def d(c):
-                if c == regp:
+                if c == regp or c == ('call', 'bool', (regp,)):
                     return present
                 if c[0] == 'cmp' and c[1] in ('Is', 'IsNot') and c[2] == regp and c[3] == ('lit', None):
                     return (not present) if c[1] == 'Is' else present
